@@ -7,6 +7,7 @@
 -/
 import AeicProofs.Lemmas.C11Dispatch
 import AeicProofs.Lemmas.C11Real
+import AeicModel.Generated.Refusals
 
 namespace C11
 open Aeic Aeic.Dispatch
@@ -274,5 +275,46 @@ theorem fix_conservative (c : Config) (e : Env) (h : ∀ k, outcomeWith Rev.pinn
     · by_cases hk : (c.apu && e.hasApu && e.apuRunning && !c.sox) = true
       · exact absurd (by simp only [hv, hn, hk, if_false, if_true]) (h' "KeyError")
       · rw [if_neg hv, if_neg hn, if_neg hk]
+
+/-! ## The refusal sites of the SOURCE (`Gen.dispatchSites`, regenerated from `emissions/trajectory.py` / `lto.py` on every run) -/
+
+/-- documented values of a method option (from the regenerated option value sets) -/
+def documentedValues (option : String) : List String :=
+  if option = "nox_method" ∨ option = "hc_method" ∨ option = "co_method" then Gen.Options.einoxMethodValues
+  else if option = "pmvol_method" then Gen.Options.pmvolMethodValues
+  else if option = "pmnvol_method" then Gen.Options.pmnvolMethodValues
+  else []
+
+open Aeic.Refusals in
+/-- **every refusal of the source names the option it dispatches on, and no other** (the error that says "method X is not
+    supported" is built from the option whose value selected the refusing branch) — decided by the kernel on the regenerated
+    sites; there is at least one site per PM option and for NOx -/
+theorem src_refusals_name_their_option :
+    Gen.dispatchSites.all namesOwnOption = true ∧
+    (["nox_method", "pmvol_method", "pmnvol_method"].all fun o => Gen.dispatchSites.any (fun s => s.option == o)) = true := by
+  decide
+
+open Aeic.Refusals in
+/-- **which documented values reach a refusal**: the only documented method value that some dispatch site of the source does not
+    handle is `pmnvol_method = foa3` (on the trajectory side) — exactly the method refusal of the model (`outcome_classification`:
+    a configuration is refused by method name iff `pmnvol = foa3`) -/
+theorem src_unhandled_documented_values :
+    (Gen.dispatchSites.flatMap fun s => (unhandled (documentedValues s.option) s).map fun v => (s.option, v))
+      = [("pmnvol_method", "foa3")] := by
+  decide
+
+/-- … so the model's method refusals and the source's reachable refusals are the same set -/
+theorem src_method_refusals_are_model (c : Config) (e : Env) (o v : String) (h : outcome c e = .error (.refused o v)) :
+    (o, v) ∈ (Gen.dispatchSites.flatMap fun s => (Aeic.Refusals.unhandled (documentedValues s.option) s).map fun v => (s.option, v))
+      ∨ o = "lifecycle_enabled" := by
+  rw [src_unhandled_documented_values]
+  rcases outcome_cases c e with ⟨h1, h2⟩ | ⟨_, _, h2⟩ | ⟨_, _, inv, h2, _⟩
+  · rw [h2] at h
+    injection h with h; injection h with ho hv
+    left; simp [← ho, ← hv]
+  · rw [h2] at h
+    injection h with h; injection h with ho hv
+    right; exact ho.symm
+  · rw [h2] at h; cases h
 
 end C11
